@@ -175,6 +175,27 @@ class Ops:
         s = self.tenv.sort(pt)
         return SV(smt.App(f"mk_{s}", (dom, val), s), pt)
 
+    # ---------------- membership in a sequence: uninterpreted predicate + witness function (pattern friendly)
+    def seq_mem(self, seq_term, elem_term):
+        es = elem_term.sort
+        from .types import mangle
+
+        name = "mem_" + mangle(es)
+        wit = "memidx_" + mangle(es)
+        ss = smt.SeqSort(es)
+        if name not in self.ctx.funcs:
+            self.ctx.declare_fun(name, [ss, es], "Bool")
+            self.ctx.declare_fun(wit, [ss, es], "Int")
+            s, e, i = smt.Var("s", ss), smt.Var("e", es), smt.Var("i", "Int")
+            mem = self.ctx.app(name, s, e)
+            w = self.ctx.app(wit, s, e)
+            self.ctx.add_axiom(f"{name}/witness", smt.Forall([("s", ss), ("e", es)], smt.Implies(
+                mem, smt.And(smt.Le(smt.Int(0), w), smt.Lt(w, smt.SeqLen(s)), smt.Eq(smt.SeqNth(s, w), e))), patterns=((mem,),)), keys=[name])
+            nth = smt.SeqNth(s, i)
+            self.ctx.add_axiom(f"{name}/intro", smt.Forall([("s", ss), ("i", "Int")], smt.Implies(
+                smt.And(smt.Le(smt.Int(0), i), smt.Lt(i, smt.SeqLen(s))), self.ctx.app(name, s, nth)), patterns=((nth,),)), keys=[name])
+        return self.ctx.app(name, seq_term, elem_term)
+
     # ---------------- truthiness
     def truthy(self, v) -> Term:
         if isinstance(v, bool):
